@@ -401,4 +401,4 @@ def run(spec, ctx):
             else:
                 run_corrupt(ctx, idx)
         except Exception as exc:
-            ctx.error(f"case {idx}", exc)
+            ctx.raised("c13.no_exception", f"case {idx}", exc)
